@@ -51,7 +51,7 @@ Definition u32 (a : N) : res N :=
   if a <=? u32_max then Ok a else Panic "arithmetic overflow".
 
 (** wrapping left shift of a u32 (shl never panics for shift amounts < 32) *)
-Definition shl32 (a : N) (k : N) : N := (N.shiftl a k) mod 4294967296.
+Definition shl32 (a : N) (k : N) : N := N.land (N.shiftl a k) 4294967295.
 
 (** option helpers mirroring Rust's combinators *)
 Definition ofilter {A} (p : A -> bool) (o : option A) : option A :=
